@@ -66,6 +66,7 @@ def _strategy(cfg, compat):
         'smart': st.booleans(), 'complete': st.booleans(),
         'order': st.lists(st.sampled_from(['html', 'latex', 'beamer', 'memoir', 'opml']), max_size=4),
         'lang': st.sampled_from([0, 0, 0, 1, 2, 3, 4, 5, 6]),
+        'renotes': st.sampled_from([False, False, True]), 'nolabels': st.sampled_from([False, False, True]),
         'atail': st.sampled_from([None, None, 'à', 'Р', '…']),
         'hlevel': st.sampled_from([None, None, None, ('Base Header Level', '2'), ('Base Header Level', '3'), ('LaTeX Header Level', '2'), ('LaTeX Header Level', '3'), ('Base Header Level', '5')]),
     })
@@ -385,9 +386,16 @@ def check(case, ctx):
         src = re.sub(r'(?m)^((?:Title|Author|Keywords|Copyright): .*[a-z0-9])$', lambda m: m.group(1) + t_, src)
         src = re.sub(r'(?m)^([a-z0-9][^\n]*[a-z0-9])(\n(?:=+|-+)\n)', lambda m: m.group(1) + t_ + m.group(2), src)
         ctx.cls('slots_ending_in_byte_a0')
+    if case.get('renotes') and not case.get('compat'):
+        # a glossary term and an abbreviation whose NAMES carry reserved characters, each used twice (the second use of a note takes another branch)
+        src += ('\n\nUses [?R&D <1> "unit"] twice [?R&D <1> "unit"] and [>AT&T] twice [>AT&T].\n\n[?R&D <1> "unit"]: glossary text\n\n[>AT&T]: expansion\n')
+        ctx.cls('reused_notes_with_reserved_characters_in_their_names')
     if '\x00' in src:
         return
     ext = EXT['NOTES'] | EXT['CRITIC'] | (EXT['SMART'] if case['smart'] else 0) | (EXT['COMPLETE'] if complete else EXT['SNIPPET'])
+    if case.get('nolabels') and not case.get('compat'):
+        ext |= EXT['NO_LABELS']          # headings and tables without generated ids
+        ctx.cls('no_labels')
     if case.get('compat'):
         # compatibility mode: plain Markdown constructs only (the generator uses CFG_COMPAT), no metadata
         ext = EXT['COMPAT'] | (EXT['SMART'] if case['smart'] else 0) | EXT['SNIPPET']
